@@ -88,6 +88,8 @@ def gen_cases(ctx):
         sides = ("dest",) if r < 0.4 else ("src",) if r < 0.7 else ("src", "dest")
         for sd in sides:
             mapgen.to_new(ctx.rng, sp, sd, setonly=0.08, embed=0.2)
+        if ctx.rng.random() < 0.2:
+            mapgen.add_companion(ctx.rng, sp)
         specs.append(("random", settle_way(ctx.rng, sp)))
     cases = []
     for i, (feat, sp) in enumerate(specs):
